@@ -6,12 +6,12 @@ PATCH="$1"; ID="$2"; TIER="${3:-quick}"
 cd /repo || exit 2
 if ! git diff --quiet; then echo "/repo has uncommitted changes" >&2; exit 2; fi
 if ! git apply --check "$PATCH" 2>/dev/null; then
-  if ! git apply --3way --check "$PATCH" 2>/dev/null; then echo "PATCH-DOES-NOT-APPLY $PATCH" >&2; exit 3; fi
-  git apply --3way "$PATCH" >/dev/null 2>&1
+  # conflicts with a later fix: commit: the seeded change has to be re-made by hand (see seeded/<id>/meta.json)
+  echo "PATCH-DOES-NOT-APPLY $PATCH" >&2; exit 3
 else
   git apply "$PATCH"
 fi
 cd /verif && VERIF_ROOT="${VERIF_ROOT:-/verif}" ./check.sh "$ID" "$TIER" 2>&1 | grep -E "VIOLATION|violation class|HARNESS|KNOWN|batch" | cut -c1-400
 RC=${PIPESTATUS[0]}
-cd /repo && git checkout -q -- . && git reset -q
+cd /repo && git reset -q --hard HEAD
 echo "exit=$RC"
